@@ -48,6 +48,10 @@ def mutate_text(p, rnd):
     return p + "{2,1}"
 
 
+DIRECTED = ["", "()", "(())", "()()", "a()", "()a", "a()b", "(|)", "a||b", "||", "(a|)b", "a(|b)", "()*", "()+", "()?", "(a|())",
+            "a{1}", "(){2}", "[a]()", "(()|a)*"]
+
+
 def generate(tier, seed, work, stats):
     rnd = random.Random(seed)
     states = core.tlc_dump("PyRegexGen", gen_cfg(2 if tier == "quick" else 3), work, stats=stats, workers=4,
@@ -57,6 +61,9 @@ def generate(tier, seed, work, stats):
         cases.append(dict(pat=st["pat"], den=sorted(st["lang"]), ast=tlaparse.to_json(st["ast"]), family="PyRegexGen"))
     for c in list(cases)[:: 4 if tier == "quick" else 2]:
         cases.append(dict(pat=mutate_text(c["pat"], rnd), den=[], ast=c["ast"], family="mutated"))
+    # degenerate patterns of the subset (empty pattern, empty groups and alternatives at every position): CPython decides
+    for pat in DIRECTED:
+        cases.append(dict(pat=pat, den=[], ast={}, family="directed"))
     for c in cases:
         c["tier"] = tier
     return cases
@@ -91,7 +98,7 @@ def replay(case):
             ev["re"] = [s for s in ss if cre.fullmatch(s) is not None]
         except re.error as e:
             ev["re_outcome"] = "error"
-    if case["family"] == "mutated" and ev["re_outcome"] == "ok":
+    if case["family"] in ("mutated", "directed") and ev["re_outcome"] == "ok":
         ev["den"] = ev["re"]          # a mutation that Python accepts has no TLA+ denotation: CPython alone decides
     r = guard.call(PythonRegex, pat, timeout=5.0)
     if r[0] != "ok":
